@@ -34,6 +34,7 @@ type c07Cfg struct {
 	LatestExists  bool // the ControllerRevision of the latest parent state already exists
 	GenSel        bool
 	OwnCondition  bool // the hook returns its own `Updated` condition
+	AbsentPath    bool // (with CustomPaths) the field paths are [spec.optional, spec.template] and spec.optional was never set on the parent
 	EchoMeta      bool // read-modify-return hook: every desired child carries the uid and resourceVersion of the child it observed (and always has: the last-applied records contain them too)
 }
 
@@ -82,6 +83,9 @@ func c07Run(c c07Case) []mc.Finding {
 		methods: map[string]v1alpha1.ChildUpdateMethod{ck.Resource: v1alpha1.ChildUpdateMethod(cfg.Method)}}
 	if cfg.CustomPaths {
 		o.fieldPaths = []string{"spec.template"}
+		if cfg.AbsentPath {
+			o.fieldPaths = []string{"spec.optional", "spec.template"}
+		}
 	}
 	if cfg.Checks > 0 {
 		chk := v1alpha1.StatusConditionCheck{Type: "Ready"}
@@ -183,6 +187,9 @@ func c07Run(c c07Case) []mc.Finding {
 		paths := []string{"spec"}
 		if cfg.CustomPaths {
 			paths = []string{"spec.template"}
+			if cfg.AbsentPath {
+				paths = []string{"spec.optional", "spec.template"}
+			}
 		}
 		patch, err := makePatch(pv.UnstructuredContent(), paths)
 		if err != nil {
@@ -436,12 +443,15 @@ func TestVerifC07(t *testing.T) {
 	cfgI := 0
 	for _, method := range []string{"RollingInPlace", "RollingRecreate"} {
 		for checks := 0; checks < 4; checks++ {
-			for fp := 0; fp < 3; fp++ {
+			for fp := 0; fp < 4; fp++ {
 				for latest := 2; latest <= 3; latest++ {
 					for _, exists := range []bool{true, false} {
 						for _, own := range []bool{false, true} {
 							cfgI++
-							cfg := c07Cfg{Method: method, Checks: checks, CustomPaths: fp >= 1, CommonChanged: fp == 2, LatestVer: latest, LatestExists: exists, GenSel: cfgI%2 == 0, OwnCondition: own}
+							cfg := c07Cfg{Method: method, Checks: checks, CustomPaths: fp >= 1, CommonChanged: fp == 2, AbsentPath: fp == 3, LatestVer: latest, LatestExists: exists, GenSel: cfgI%2 == 0, OwnCondition: own}
+							if fp == 3 && checks != 0 {
+								continue // the several-paths configuration is orthogonal to the status checks
+							}
 							if own && (checks != 2 || fp != 0) {
 								continue // the hook's own condition is orthogonal: explored on one representative configuration slice
 							}
